@@ -293,6 +293,10 @@ func c17lExec(raw json.RawMessage) interface{} {
 	l.Close()
 	close(inner.feed)
 	for _, c := range clients {
+		// reset instead of FIN: no TIME_WAIT sockets pile up over tens of thousands of cases
+		if tc, ok := c.(*net.TCPConn); ok {
+			tc.SetLinger(0)
+		}
 		c.Close()
 	}
 	for i, sc := range acc {
